@@ -2,15 +2,15 @@ SPECIFICATION Spec
 CONSTANTS
   NS = 2
   NA = 3
-  NE = 2
-  PDs = {1, 2}
+  NE = 1
+  PDs = {1}
   Gammas <- GammaPI
   RewSet <- RewPI
   EpsSet <- EpsPI
   Tests = {"span", "max_diff"}
   Budgets = {1, 2, 5}
   Resets = {TRUE, FALSE}
-  NumGadgets = 3
+  NumGadgets = 8
   MaxScale = 4194304
   MaxOuter = 6
   Bug = "none"
@@ -19,3 +19,5 @@ INVARIANT EvalWithinBudget
 INVARIANT StopMeansStable
 INVARIANT ReturnedGreedy
 INVARIANT ReturnedIterateTested
+INVARIANT PINearOptimal
+INVARIANT PIValuesNearPolicyValue
